@@ -26,6 +26,13 @@ type half struct {
 	buf    []byte
 	closed bool  // writer closed: reader gets EOF after draining
 	rerr   error // error delivered to the reader after draining (instead of EOF)
+	broken error // error returned to the writer of this half (the reader is gone: EPIPE)
+	// breakAt > 0: the write that would carry the byte at this offset (counted
+	// over everything ever written into this half) only delivers the bytes
+	// before it and fails; onBreak runs once at that moment
+	breakAt  int64
+	breakErr error
+	onBreak  func()
 	total  int64 // bytes ever written
 }
 
@@ -109,12 +116,35 @@ func (c *Conn) Write(p []byte) (int, error) {
 		h.mu.Unlock()
 		return 0, io.ErrClosedPipe
 	}
+	if h.broken != nil {
+		err := h.broken
+		h.mu.Unlock()
+		return 0, err
+	}
 	h.mu.Unlock()
 	// observers see the write before the peer can react to it
 	if c.OnWrite != nil {
 		c.OnWrite(p)
 	}
 	h.mu.Lock()
+	if h.breakAt > 0 && h.total+int64(len(p)) >= h.breakAt {
+		n := int(h.breakAt - 1 - h.total)
+		if n < 0 {
+			n = 0
+		}
+		h.buf = append(h.buf, p[:n]...)
+		h.total += int64(n)
+		h.broken = h.breakErr
+		h.breakAt = 0
+		f := h.onBreak
+		err := h.broken
+		h.cond.Broadcast()
+		h.mu.Unlock()
+		if f != nil {
+			f()
+		}
+		return n, err
+	}
 	h.buf = append(h.buf, p...)
 	h.total += int64(len(p))
 	h.cond.Broadcast()
@@ -163,6 +193,27 @@ func (c *Conn) Reset(err error) {
 	c.wr.cond.Broadcast()
 	c.wr.mu.Unlock()
 	c.Close()
+}
+
+// BreakPeerWrites makes every later Write of the *peer* fail with err, as a
+// socket does once the other side is gone (EPIPE / connection reset). Without
+// it, writes to an endpoint whose peer has closed succeed into the void (as
+// they do on a real socket until the reset comes back).
+func (c *Conn) BreakPeerWrites(err error) {
+	c.rd.mu.Lock()
+	c.rd.broken = err
+	c.rd.mu.Unlock()
+}
+
+// BreakPeerWritesAt arranges that the peer's output breaks at byte offset n
+// (1-based, counted over everything the peer has ever written): the write
+// carrying that byte delivers only what precedes it and fails with err, every
+// later write fails too, and onBreak (may be nil) runs at that moment - the
+// place to make this endpoint disappear as well.
+func (c *Conn) BreakPeerWritesAt(n int64, err error, onBreak func()) {
+	c.rd.mu.Lock()
+	c.rd.breakAt, c.rd.breakErr, c.rd.onBreak = n, err, onBreak
+	c.rd.mu.Unlock()
 }
 
 // FailWrites makes every later Write on this endpoint return err.
